@@ -62,15 +62,17 @@ def pinnedEnv (p : Pattern) (n : Nat) (q : Query.QAtom) : Option PinnedEnv :=
 def isHetero (z : Nat) : Bool := z != 1 && z != 6
 
 /-- can the neighbour requirements `(order, Z) ↦ count` of one compiled valence rule be met in the pinned environment?
-    (an over-approximation: one neighbour may be counted for two keys — more rules count as valid, the theorem gets stronger) -/
+    An over-approximation (each requirement is checked on its own): more rules count as valid, the theorem gets stronger.
+    For the all-single environment: every required neighbour is singly bonded, no requirement asks for more than `d`
+    neighbours, hetero requirements fit into the `x` hetero neighbours and carbon / hydrogen requirements into the rest.
+    `Proofs/C14Valid.lean: ruleMatches_ruleSat` proves that a rule which matches a real atom in such an environment is `ruleSat`. -/
 def ruleSat (env : PinnedEnv) (r : Valence.Rule) : Bool :=
   match env with
   | .allSingle d hetero =>
-    r.dict.all (fun kc => kc.1.1 == 1) && decide ((r.dict.map (·.2)).sum ≤ d) &&
+    r.set.all (fun k => k.1 == 1) && r.dict.all (fun kc => decide (kc.2 ≤ d)) &&
     (match hetero with
      | none => true
-     | some k => decide (((r.dict.filter fun kc => isHetero kc.1.2).map (·.2)).sum ≤ k) &&
-                 decide (((r.dict.filter fun kc => !isHetero kc.1.2).map (·.2)).sum ≤ d - k))
+     | some k => r.dict.all fun kc => if isHetero kc.1.2 then decide (kc.2 ≤ k) else decide (kc.2 ≤ d - k))
   | .known nbrs =>
     r.dict.all fun kc =>
       decide ((nbrs.filter fun oe => oe.1 == kc.1.1 && (oe.2.isEmpty || oe.2.contains kc.1.2)).length ≥ kc.2)
@@ -89,6 +91,33 @@ def atomValid (p : Pattern) (nq : Nat × Query.QAtom) : Bool :=
       | none => false
 
 def patternValid (p : Pattern) : Bool := p.atoms.all (atomValid p)
+
+/-- the `x` value of a query atom when it is a single number -/
+def pinnedHetero (q : Query.QAtom) : Option Nat := match q.heteroatoms with | [k] => some k | _ => none
+
+/-- no compiled valence rule of element `z` can apply to an atom with the query's charge / radical state and `d` single bonds
+    (`pinnedHetero q` of them to hetero atoms when the query says so) -/
+def badFor (z : Nat) (q : Query.QAtom) (d : Nat) : Bool :=
+  match Valence.tableOf z with
+  | some t =>
+    (match Valence.valenceRules t q.charge q.radical d with
+     | some rules => rules.all fun r => !ruleSat (.allSingle d (pinnedHetero q)) r
+     | none => true)
+  | none => false
+
+/-- the rule has a single-element pattern atom pinned to `d` single bonds for which no valence rule is satisfiable -/
+def hasBadSingleAtom (r : StdRule) : Bool :=
+  r.atoms.any fun nq =>
+    match nq.2.neighbors, nq.2.kind with
+    | [d], .element z _ => nq.2.hybridization == [1] && badFor z nq.2 d
+    | _, _ => false
+
+/-- the rule is invalid because of an atom whose environment is given by its pattern neighbours (multiple bonds) -/
+def invalidByKnownEnv (r : StdRule) : Bool :=
+  r.atoms.any fun nq =>
+    match pinnedEnv r.toPattern nq.1 nq.2 with
+    | some (.known _) => !atomValid r.toPattern nq
+    | _ => false
 
 /-- is pattern atom `n` an `AnyMetal` (the only query atoms without a charge test) -/
 def isMetalAtom (p : Pattern) (n : Nat) : Bool :=
